@@ -302,6 +302,9 @@ def _drive(run_hypothesis, col, tier, to_spec=lambda s: s):
                 {"bucket": f.bucket, "msg": f.msg, "spec": spec, "data": enc(f.data)}
             )
             ignored.add(f.bucket)
+            if f.data.get("fatal"):
+                # non-termination: every further occurrence would cost a watchdog period; stop this shard
+                break
             continue
         except HarnessError as exc:
             return {"harness_error": str(exc), "spec": st["harness"][2] if st["harness"] else None}
